@@ -9,9 +9,9 @@ LEVEL = 'other'
 TUS = ['src/engine/engine_forward.c', 'src/engine/engine_core_util.c', 'src/engine/engine_util_misc.c', 'src/engine/engine_util_blas.c']
 EXPLANATION = ('llsym in exact IEEE-754 binary64 mode executes the real mju_isBad and mj_checkPos/mj_checkVel/mj_checkAcc (with the real mj_warning); '
                'mj_resetData and mj_forward are uninterpreted logged calls. For every double x: isBad(x) <=> NaN or |x| > mjMAXVAL. For all state '
-               'contents (nq, nv <= 3, every bit pattern incl. NaN/Inf), all option flag words and all sleep filters: a bad entry raises the matching warning, '
+               'contents (nq, nv <= 3 quick, <= 5 thorough; every bit pattern incl. NaN/Inf), all option flag words and all sleep filters: a bad entry raises the matching warning, '
                'records the first bad index, resets iff autoreset is enabled (and re-runs mj_forward after a bad acceleration); no bad entry => no call and no counter change.')
-BOUNDS = {'quick': {'nq,nv': '<=2', 'fp': 'binary64 exact'}, 'thorough': {'nq,nv': '<=3'}}
+BOUNDS = {'quick': {'nq,nv': '<=3', 'fp': 'binary64 exact'}, 'thorough': {'nq,nv': '<=5'}}
 OUTSIDE = '"after mj_step every state component is finite" (needs the whole pipeline); what mj_resetData itself does.'
 ASSUMPTIONS = ['mj_resetData / mj_forward are uninterpreted (logged) calls', 'warning counters below INT_MAX-2 (no wrap of the int counter)', 'dof_awake_ind entries in [0, nv) and nv_awake in [0, nv] (established by mj_updateSleep)']
 BUDGET = {'quick': 300, 'thorough': 1500}
@@ -155,6 +155,6 @@ def unit_check(tier, which, n):
 def units(tier):
     u = [('isBad', 'unit_isbad', {})]
     for which in ('pos', 'vel', 'acc'):
-        for n in ([0, 1, 2] if tier == 'quick' else [0, 1, 2, 3]):
+        for n in ([0, 1, 2, 3] if tier == 'quick' else [0, 1, 2, 3, 4, 5]):
             u.append(('check%s_n%d' % (which, n), 'unit_check', {'which': which, 'n': n}))
     return u
